@@ -937,9 +937,11 @@ package compose
 //@   ensures[nodes_same] nodesSame(g)
 //@   ghost curEnd string = ""
 //@   at call g.getNodeInputType: ghost curEnd = arg0
-//@   at call g.getNodeGenericHelper(startNode).forSuccessorPassthrough: assert[successor_passthrough_inherits_from_its_predecessor] @C07 startNodeOutputType != nil && endNodeInputType == nil
-//@   at call g.getNodeGenericHelper(endNode.endNode).forPredecessorPassthrough: assert[predecessor_passthrough_inherits_from_its_successor] @C07 startNodeOutputType == nil && endNodeInputType != nil
+//@   ghost helperOf string = ""
 //@   at call g.getNodeGenericHelper: assert[helpers_of_this_edge_only] @C07 arg0 == startNode || arg0 == curEnd
+//@   at call g.getNodeGenericHelper: ghost helperOf = arg0
+//@   at call *.forSuccessorPassthrough: assert[successor_passthrough_inherits_from_its_predecessor] @C07 startNodeOutputType != nil && endNodeInputType == nil && helperOf == startNode
+//@   at call *.forPredecessorPassthrough: assert[predecessor_passthrough_inherits_from_its_successor] @C07 startNodeOutputType == nil && endNodeInputType != nil && helperOf == curEnd
 //@   at call checkAssignable: assert[edge_types_compared] @C07 arg0 == startNodeOutputType && arg1 == endNodeInputType && arg0 != nil && arg1 != nil
 
 //@ func (*graph).addToValidateMap
